@@ -139,9 +139,13 @@ func ruleSummaryRendering(c *Ctx, rule string) {
 					}
 				}
 				if setter := summarySetterOf(a, b); setter != nil {
-					if call, isCall := calleeIs(in, setter); isCall && len(call.Args) == 2 && an.AP(call.Args[0]) == "recv" {
-						if strings.Contains(c.O.Of(call.Args[1]).String(), "phi<"+acc.Name()+">") || call.Args[1] == ssa.Value(acc) {
-							stored = true
+					if call, isCall := calleeIs(in, setter); isCall {
+						nodeIdx, valIdx, _ := summarySetterArgs(a, setter)
+						if len(call.Args) == len(setter.Params) && an.AP(call.Args[nodeIdx]) == "recv" {
+							// the accumulator itself, not a value computed from it (index &^ 1 drops a method)
+							if strings.HasPrefix(c.O.Of(call.Args[valIdx]).String(), "phi<"+acc.Name()+">") || call.Args[valIdx] == ssa.Value(acc) {
+								stored = true
+							}
 						}
 					}
 				}
